@@ -1723,7 +1723,9 @@ def _encode_multipart(vars, content_type, fout=None):
 
         if filename is not None:
             wt('; filename="%s"' % q(filename))
-            mime_type = mimetypes.guess_type(filename)[0]
+            # a file name is not a URL ("data:multipart/mixed,x" must not
+            # pick the part's Content-type): guess from its last component
+            mime_type = mimetypes.guess_type(os.path.basename(filename))[0]
         else:
             mime_type = None
 
